@@ -133,10 +133,11 @@ def handleTable (c : Case) (kind : String) : CaseOut := Id.run do
       nClear := nClear + 1
       if t.ts == 0 || t.ts == HashTable.u32Max then nWrap := nWrap + 1
     | .clears n =>
-      for _ in [0:n] do
-        t := HashTable.clear N t
-        if t.ts == 0 || t.ts == HashTable.u32Max then nWrap := nWrap + 1
+      -- fast path, equal to n single clears (Tbx.Props.C13.clearMany_is_iterated_clear)
+      let g0 := t.ts
+      t := HashTable.clearMany N n t
       nClear := nClear + n
+      nWrap := nWrap + (g0 + n) / HashTable.u32Max
     | .setgen g =>
       match HashTable.setGeneration N t g with
       | some t' => t := t'
